@@ -452,7 +452,7 @@ EDGE_SNIPPETS = [
     # strings
     '""', '"a"', '"\\n\\t\\r\\\\\\"~"', '"\\a"', '"\\"', '"\\', '"', '"a', 'a"', '"a""b"', '"a" "b"', '"/* not a comment */"', '"// not a comment"', "'a'", '"é世😀"', '"\\~"', '"~"',
     # comments
-    '/**/', '/***/', '/*/', '/* /* */ */', '/* a */ 1 /* b */', '1 // c', '1 // c\n', '// c', '/* unterminated', '*/', '/ * a * /', '1 /* \n */ + /* // */ 2', '1 // /* \n + 2 // */', '/*é*/1', '1/**/2', '1/**/+/**/2',
+    '#!/usr/bin/env fml\n1', '#! x\nprint("a")', '#!\n', '#!', '# 1', '1 #!', '/**/', '/***/', '/*/', '/* /* */ */', '/* a */ 1 /* b */', '1 // c', '1 // c\n', '// c', '/* unterminated', '*/', '/ * a * /', '1 /* \n */ + /* // */ 2', '1 // /* \n + 2 // */', '/*é*/1', '1/**/2', '1/**/+/**/2',
     # blocks, objects, arrays, functions, control
     'begin end', 'begin ; end', 'begin 1 end', 'begin 1; end', 'begin 1;; end', 'begin 1; 2 end', 'beginend', 'begin 1 end end', 'begin begin end', 'object begin end', 'object begin ; end', 'object extends a begin end',
     'object extends a begin let b = 1 end', 'object begin let b = 1; end', 'object begin let b = 1; function m() -> 1 end', 'object begin function m() -> 1; let b = 1; end', 'object begin 1 end', 'object begin b <- 1 end',
@@ -931,6 +931,23 @@ def c06(tier):
                 pass
         if 'bytes' in houts[pi]:
             obs.append({'key': pl['name'] + ' :: bytes', 'val': {'bc': hashlib.sha1(bytes(houts[pi]['bytes'])).hexdigest()}, 'cfg': 'in-process compile (what run executes)', 'pi': pi})
+        if pl['paths'] in ('all', 'some'):
+            # the NAME given on the command line decides the inferred format and the names written by -o DIRECTORY, also when it is a symbolic link to a file called otherwise
+            try:
+                os.makedirs(os.path.join(rd, 'store'))
+                os.makedirs(os.path.join(rd, 'out'))
+                os.rename(os.path.join(rd, 'prog.fml'), os.path.join(rd, 'store', '0001'))
+                os.symlink(os.path.join('store', '0001'), os.path.join(rd, 'prog.fml'))
+                r1 = run_stage(exe, rd, ['parse', 'prog.fml', '--format', 'json', '-o', 'out'])
+                os.rename(os.path.join(rd, 'out', 'prog.json'), os.path.join(rd, 'store', '0002')) if os.path.exists(os.path.join(rd, 'out', 'prog.json')) else None
+                os.symlink(os.path.join('store', '0002'), os.path.join(rd, 'linked.json'))
+                r2 = run_stage(exe, rd, ['compile', 'linked.json', '-o', 'out'])
+                r3 = run_stage(exe, rd, ['execute', os.path.join('out', 'linked.bc')])
+                ok = r1[0] == 0 and r2[0] == 0 and os.path.exists(os.path.join(rd, 'out', 'linked.bc'))
+                val = {'status': 'ok' if r3[0] == 0 else ('crash' if r3[0] < 0 or r3[0] >= 128 else 'fail'), 'stdout': hashlib.sha1(r3[1]).hexdigest()} if ok else {'status': 'fail', 'stdout': hashlib.sha1(b'').hexdigest()}
+                obs.append({'key': pl['name'] + ' :: outcome', 'val': val, 'cfg': 'parse / compile / execute through symbolic links (prog.fml -> store/0001, linked.json -> store/0002) with -o DIRECTORY', 'pi': pi})
+            except OSError:
+                pass
     for k, (pi, path) in enumerate(tasks):
         o = results[k]
         pl = payloads[pi]
@@ -1110,6 +1127,28 @@ def c11(tier):
             obs.append({'key': p['name'] + ' :: outcome', 'val': {'ok': rc == 0, 'out': hashlib.sha1(so).hexdigest()}, 'cfg': '%s `fml run`' % profile})
             chk.count((p['name'], profile))
     chk.notes['frame_limit_programs'] = len(fl)
+    # what a result is does not depend on what is already there: output appended to a file that has content; a compile into a file that holds a NEWER image of another program
+    cands = [k for k, o in enumerate(first) if 'bytes' in o and (o.get('run') or {}).get('ok') and len((o.get('run') or {}).get('out', [])) > 0 and not (o.get('run') or {}).get('diverged')][:4]
+    for n, i in enumerate(cands):
+        src = os.path.join(wd, 'ap%d.fml' % i)
+        open(src, 'w', encoding='utf-8').write(progs[i]['text'])
+        out = bytes(first[i]['run']['out'])
+        f = os.path.join(wd, 'ap%d.txt' % i)
+        subprocess.run(['bash', '-c', '{ echo header; "%s" run "%s"; } > "%s"; "%s" run "%s" >> "%s"' % (build('debug'), src, f, build('debug'), src, f)], cwd=wd, stdout=subprocess.PIPE, stderr=subprocess.PIPE, timeout=120)
+        obs.append({'key': progs[i]['name'] + ' :: appended', 'val': {'d': hashlib.sha1(b'header\n' + out + out).hexdigest()}, 'cfg': 'prescribed: header, output, output'})
+        obs.append({'key': progs[i]['name'] + ' :: appended', 'val': {'d': hashlib.sha1(open(f, 'rb').read() if os.path.exists(f) else b'').hexdigest()}, 'cfg': '`{ echo header; fml run; } > FILE; fml run >> FILE`'})
+        j = cands[(n + 1) % len(cands)]
+        if j != i:
+            ja, jb, bc = os.path.join(wd, 'ts%d.a.json' % i), os.path.join(wd, 'ts%d.b.json' % i), os.path.join(wd, 'ts%d.bc' % i)
+            srcj = os.path.join(wd, 'ap%d.src.fml' % j)
+            open(srcj, 'w', encoding='utf-8').write(progs[j]['text'])
+            sh([build('debug'), 'parse', srcj, '--format', 'json', '-o', ja], wd)
+            sh([build('debug'), 'parse', src, '--format', 'json', '-o', jb], wd)
+            if os.path.exists(ja) and os.path.exists(jb):
+                sh([build('debug'), 'compile', ja, '-o', bc], wd)
+                os.utime(jb, (time.time() - 86400, time.time() - 86400))          # the input about to be compiled is older than what the output file holds
+                sh([build('debug'), 'compile', jb, '-o', bc], wd)
+                obs.append({'key': progs[i]['name'] + ' :: bytes', 'val': {'d': hashlib.sha1(open(bc, 'rb').read() if os.path.exists(bc) else b'').hexdigest(), 'stage': 'ok'}, 'cfg': 'debug `fml compile` into a file that holds a newer image of another program'})
     # byte strings no compiler writes but a loader may meet: an image followed by a line break, by junk, by a second image (cat a.bc b.bc): whatever a build does with
     # them, every build and every process does the same
     tails = 0
